@@ -213,7 +213,8 @@ def kind_of_meta(m):
     if m is None:
         return None
     if m.get("pandas_type") == "categorical":
-        return [5]
+        labels = (m.get("metadata") or {}).get("labels")       # the type of the labels, when the writer recorded it
+        return [5, kind_of_meta(labels)] if labels else [5]
     if m.get("pandas_type") == "datetimetz":
         return [7]
     t = str(m.get("numpy_type"))
